@@ -50,7 +50,7 @@ ASSUMPTIONS = [
 FAMILIES = {   # name -> (K quick, K thorough, one task per time); heavy families first (load balance)
     "Guderley": (1, 2, True), "GenEOS": (1, 2, True), "GenEOS_table": (2, 2, True), "Sedov": (1, 2, True),
     "ED_Solver": (1, 2, False), "nED_Solver": (1, 1, False), "ie_Solver": (1, 2, False),
-    "IGEOS": (1, 2, False), "IGEOS_table": (2, 2, False), "Noh": (1, 2, False),
+    "IGEOS": (1, 2, False), "IGEOS_table": (2, 2, False), "IGEOS_bnd": (2, 2, False), "Noh": (1, 2, False),
     "EHEP": (1, 2, False), "SDRZ": (1, 2, False), "EPpiston": (1, 2, False),
 }
 SUOLSON_ALPHABET = {"trad_bc_ev": [1.0e3, 500.0], "opac": [1.0, 2.5], "alpha": [3.02636565993931701e-14, 6.05273131987863402e-14]}
